@@ -266,8 +266,9 @@ def main():
           for pid in ALL if pid not in CHECKS]
     manifest = {
         'version': 1,
-        'setup_cmd': '/venv/bin/python -c "import hypothesis" || /venv/bin/pip install --no-index '
-                     '--find-links /opt/veriftools/wheels hypothesis',
+        'setup_cmd': '(/venv/bin/python -c "import hypothesis" || /venv/bin/pip install --no-index '
+                     '--find-links /opt/veriftools/wheels hypothesis) && (/venv/bin/pip install -q --no-index '
+                     '--find-links /opt/veriftools/wheels --target /verif/.deps atheris || true)',
         'hooks': {
             'guard': 'DESPER_VERIF',
             'enable': 'none needed: no hooks were added to /repo; all observation goes through the public API '
